@@ -33,6 +33,9 @@ var lost []string
 
 // plainHash: fingerprint of every function looked up, as written; baseFP: the committed baseline
 var plainHash = map[string]string{}
+
+// bindingIDs: "@ids:<file>:<func>" -> names bound by the function, in source order (baseline for renameBack)
+var bindingIDs = map[string]string{}
 var baseFP map[string]string
 
 // anchorLost records a lost anchor together with its owner: the plug-in file (c08, c12, tup, …) whose
@@ -110,6 +113,7 @@ func (f *file) funcDecl(name string) *ast.FuncDecl {
 					h := sha256.Sum256([]byte(exprStr(token.NewFileSet(), fd)))
 					fd.Doc = doc
 					plainHash[key] = fmt.Sprintf("%x", h[:8])
+					bindingIDs["@ids:"+f.path+":"+declName(fd)] = strings.Join(bindingNames(fd), ",")
 				}
 			}
 			// fallback reading only for functions that differ from the baseline the checks were last
@@ -432,7 +436,28 @@ func (f *file) varInit(name string) (int64, bool) {
 	if f == nil {
 		return 0, false
 	}
-	for _, d := range f.f.Decls {
+	// this file first, then (a declaration may have been moved) the other files of the package
+	files := []*ast.File{f.f}
+	matches, _ := filepath.Glob(filepath.Join(*repo, filepath.Dir(f.path), "*.go"))
+	for _, m := range matches {
+		if strings.HasSuffix(m, "_test.go") || filepath.Base(m) == filepath.Base(f.path) {
+			continue
+		}
+		if af, err := parser.ParseFile(token.NewFileSet(), m, nil, parser.SkipObjectResolution); err == nil {
+			files = append(files, af)
+		}
+	}
+	for _, af := range files {
+		if v, ok := varInitIn(af, name); ok {
+			return v, true
+		}
+	}
+	anchorLost("%s: integer initialiser of %s not found", f.path, name)
+	return 0, false
+}
+
+func varInitIn(af *ast.File, name string) (int64, bool) {
+	for _, d := range af.Decls {
 		gd, ok := d.(*ast.GenDecl)
 		if !ok {
 			continue
@@ -451,7 +476,6 @@ func (f *file) varInit(name string) (int64, bool) {
 			}
 		}
 	}
-	anchorLost("%s: integer initialiser of %s not found", f.path, name)
 	return 0, false
 }
 
@@ -665,6 +689,9 @@ func main() {
 		}
 	}
 	for k, v := range funcInventory() {
+		fps[k] = v
+	}
+	for k, v := range bindingIDs {
 		fps[k] = v
 	}
 	if *outFP != "" {
